@@ -114,41 +114,41 @@ def check_log_capture(chk, ix):
     inv, ab = lc.lookup("inveigle"), lc.lookup("abandon")
     if inv is None or ab is None:
         raise AnalysisError("anchor missing: LoggingCapture.inveigle/abandon")
-    # inveigle: old_level saved before setLevel, handler added
-    body = list(ast.walk(inv.node))
-    save = [n for n in body if isinstance(n, ast.Assign) and unparse(n.targets[0]) == "self.old_level" and unparse(n.value).endswith(".level")]
-    setl = [n for n in body if isinstance(n, ast.Call) and isinstance(n.func, ast.Attribute) and n.func.attr == "setLevel"]
-    addh = [n for n in body if isinstance(n, ast.Call) and isinstance(n.func, ast.Attribute) and n.func.attr == "addHandler" and unparse(n.args[0]) == "self"]
-    chk.instance("K4")
-    if save and setl and addh and save[0].lineno < setl[0].lineno:
-        chk.ok("K4", {"inveigle": "saves root level, then sets it; adds itself"}, nontrivial_key="inveigle")
-    else:
-        chk.fail(Finding("K4", inv.fullname, "level not saved before change", "inveigle does not save the root logger level before changing it / "
-                         "does not add the capture handler", file=inv.file, line=inv.lineno))
-    body = list(ast.walk(ab.node))
-    restore = [n for n in body if isinstance(n, ast.Call) and isinstance(n.func, ast.Attribute) and n.func.attr == "setLevel" and unparse(n.args[0]) == "self.old_level"]
-    remove = [n for n in body if isinstance(n, ast.Call) and isinstance(n.func, ast.Attribute) and n.func.attr in ("remove", "removeHandler")]
-    readd = [n for n in body if isinstance(n, ast.For) and unparse(n.iter) == "self.old_handlers"
-             and any(isinstance(m, ast.Call) and isinstance(m.func, ast.Attribute) and m.func.attr == "addHandler" for m in ast.walk(n))]
-    chk.instance("K4")
-    if restore and remove and readd:
-        chk.ok("K4", {"abandon": "removes the capture handler, re-adds removed handlers, restores the level"}, nontrivial_key="abandon")
-    else:
-        chk.fail(Finding("K4", ab.fullname, "restore=%s remove=%s readd=%s" % (bool(restore), bool(remove), bool(readd)),
-                         "abandon does not %s" % ", ".join(t for t, ok in (("restore the saved level", restore), ("remove the capture handler", remove),
-                                                                          ("re-add the removed handlers", readd)) if not ok),
-                         file=ab.file, line=ab.lineno))
-    # teardown calls abandon; setup calls inveigle
+    # what inveigle() / abandon() do to the loggers (level saved and restored, foreign handlers taken off and put back, the
+    # capture handler added and removed) is decided by evaluation on logger tokens: check_log_level_roundtrip; that
+    # teardown_capture() reaches abandon(): check_teardown_abandons.  Here: setup_capture() reaches inveigle() - evaluated.
     cc = ix.cls("behave.capture:CaptureController")
-    chk.instance("K4")
-    su, td = cc.lookup("setup_capture"), cc.lookup("teardown_capture")
-    ok = any(isinstance(n, ast.Call) and unparse(n.func).endswith("log_capture.inveigle") for n in ast.walk(su.node)) and \
-        any(isinstance(n, ast.Call) and unparse(n.func).endswith("log_capture.abandon") for n in ast.walk(td.node))
-    if ok:
-        chk.ok("K4", {"controller": "setup_capture -> inveigle, teardown_capture -> abandon"}, nontrivial_key="pairing")
-    else:
-        chk.fail(Finding("K4", td.fullname, "inveigle/abandon not paired", "setup_capture/teardown_capture do not pair inveigle with abandon",
-                         file=td.file, line=td.lineno))
+    su = cc.lookup("setup_capture")
+    if su is None:
+        raise AnalysisError("anchor missing: CaptureController.setup_capture")
+    for log_on in (True, False):
+        called = []
+        made = []
+
+        def lc_ctor(i, s_, a, k, n):
+            r = s_.alloc(HObj("LogCapTok", {}, open=True, label="log capture"))
+            made.append(r.oid)
+            return [(s_, "val", r)]
+        it = Interp(ix, stubs={"LoggingCapture": lc_ctor, "LogCapTok.inveigle": lambda i, s_, a, k, n: (called.append(a[0].oid), [(s_, "val", None)])[1],
+                               "StringIO": lambda i, s_, a, k, n: [(s_, "val", s_.alloc(HObj("BufTok", {}, open=True)))],
+                               "six.StringIO": lambda i, s_, a, k, n: [(s_, "val", s_.alloc(HObj("BufTok", {}, open=True)))]}, name="setup_capture")
+        st = State()
+        st.frames = []
+        cfg = st.alloc(HObj("ConfigStub", {"stdout_capture": False, "stderr_capture": False, "log_capture": log_on}, label="config"))
+        ctx = st.alloc(HObj("ContextTok", {}, open=True, label="context"))
+        ctl = st.alloc(HObj(cc, {"config": cfg, "stdout_capture": None, "stderr_capture": None, "log_capture": None, "old_stdout": None, "old_stderr": None},
+                            label="controller"))
+        outs = it.call_function(st, su, [ctx], {}, None, self_val=ctl)
+        chk.absorb(it)
+        chk.instance("K4")
+        if not outs or any(k != "val" for _, k, _v in outs):
+            raise AnalysisError("setup_capture not evaluable: %r" % [(k, v) for _, k, v in outs][:3])
+        if bool(called) == log_on and (not log_on or set(called) <= set(made)):
+            chk.ok("K4", {"log_capture": log_on, "setup_capture installs the capture handler": bool(called)}, nontrivial_key=("setup", log_on))
+        else:
+            chk.fail(Finding("K4", su.fullname, "log_capture=%s: inveigle %s" % (log_on, "called" if called else "not called"),
+                             "setup_capture() with log capture %s %s the log capture handler" % ("on" if log_on else "off", "installs" if called else "does not install"),
+                             file=su.file, line=su.lineno, stmt="def setup_capture"))
     # K6
     chk.instance("K6")
     ext = lc.external_bases()
